@@ -308,9 +308,9 @@ func (tp *TableParser) parseCellParagraph(p paragraphXML) parsedParagraph {
 	// Extract text from runs
 	var textParts []string
 	for _, run := range p.Runs {
-		for _, t := range run.Text {
-			textParts = append(textParts, t.Value)
-		}
+		// same extraction as for body paragraphs: tabs, line breaks and
+		// symbols inside a cell are content too
+		textParts = append(textParts, runText(run))
 	}
 	parsed.Text = strings.Join(textParts, "")
 
